@@ -37,6 +37,9 @@ HIST = {
     # several seed/sensitivity/reset passes after ONE response, seeding different outputs (work buffers of a module that
     # reset() cannot clear): last output first, then the first output only
     "partial-seeds": ["set1", "resp", "seedL", "sens", "reset", "seed0", "sens"],
+    # per round two passes seeding different outputs/modes, two rounds (caches kept per mode across response())
+    "partial-seeds-rounds": ["set1", "resp", "seed0", "sens", "reset", "seedL", "sens", "reset",
+                             "set2", "resp", "seed0", "sens", "reset", "seedL", "sens"],
     "partial-seeds-2": ["set1", "resp", "seed0", "sens", "reset", "seedL", "sens", "reset", "set2", "resp", "seed0", "sens"],
 }
 
@@ -45,16 +48,21 @@ def items(tier):
     q = tier == "quick"
     out = []
     temps = ["poisson-linsolve", "linsolve-dense", "linsolve-classchange", "linsolve-diagchange", "linsolve-patternchange", "overhang", "densityfilter", "filterconv",
-             "sysofeq", "statcond", "assemble-const", "aggregation-active"]
+             "sysofeq", "statcond", "assemble-const", "aggregation-active", "eigensolve-sparse"]
     if not q:
         temps += ["linsolve-dense-lda", "linsolve-classchange-lda", "linsolve-dense3"]
     for t in temps:
         for h in HIST:
             if q and h in ("three-cycles",) and t not in ("linsolve-dense", "overhang"):
                 continue
-            if h.startswith("partial-seeds") and t not in ("sysofeq", "linsolve-dense", "poisson-linsolve", "statcond"):
+            if h.startswith("partial-seeds") and t not in ("sysofeq", "linsolve-dense", "poisson-linsolve", "statcond", "eigensolve-sparse"):
                 continue
-            out.append(dict(kind="history", id="%s-%s" % (t, h), template=t, hist=h))
+            if t == "eigensolve-sparse" and (h not in ("partial-seeds", "partial-seeds-rounds", "two-cycles") or (q and h == "two-cycles")):
+                continue
+            if h == "partial-seeds-rounds" and t not in ("eigensolve-sparse", "sysofeq"):
+                continue
+            out.append(dict(kind="history", id="%s-%s" % (t, h), template=t, hist=h,
+                            **(dict(timeout=600) if t == "eigensolve-sparse" and q else {})))
         out.append(dict(kind="unseeded", id="%s-unseeded" % t, template=t))
     return out
 
@@ -85,6 +93,48 @@ def make(V, template, ncyc=3):
             sx.state = V.reals("x%d" % k, 1, positive=True)
             sf.state = V.reals("f%d" % k, 4)
         return Net(net, [sx, sf], [m3.sig_out[0], m2.sig_out[0]], [sx, sf] + [m.sig_out[0] for m in (m1, m2, m3)], setter)
+
+    if template == "eigensolve-sparse":
+        # sparse EigenSolve (n = 3, two modes) with eigenvector sensitivities: per-mode adjoint factorisations are cached
+        # inside the module between sensitivity() calls and across response() calls
+        from pymoto.modules import linalg as _la
+        from .catalogue import _SingularAdjointOracle, _mk_sparse
+        n = 3
+        sA = pym.Signal("A")
+        m = pym.EigenSolve([sA], nmodes=2, hermitian=True)
+        net = pym.Network(m)
+        if V.symbolic:
+            if not hasattr(_la, "_symx_real_auto"):
+                _la._symx_real_auto = _la.auto_determine_solver
+            real_auto = _la._symx_real_auto
+
+            def auto(Z, *a, **kw):
+                if kw.get("ispositivedefinite") is False:
+                    return _SingularAdjointOracle()
+                return real_auto(Z, *a, **kw)
+            _la.auto_determine_solver = auto
+        elif hasattr(_la, "_symx_real_auto"):
+            _la.auto_determine_solver = _la._symx_real_auto
+
+        def setter(k):
+            W = np.array([V.real("W%d_%d" % (k, i), positive=True, default=0.5 * k + i) for i in range(n)],
+                         dtype=object if V.symbolic else float)
+            t = V.real("t%d" % k, default=0.2 * k)
+            den = 1 + t * t
+            c_, s2 = (1 - t * t) / den, 2 * t / den
+            Q = np.array([[c_, -s2, 0], [s2, c_, 0], [0, 0, 1]], dtype=object if V.symbolic else float)
+            D = np.array([[W[i] if i == j else 0 for j in range(n)] for i in range(n)], dtype=object if V.symbolic else float)
+            A = Q @ D @ Q.T
+            if V.symbolic:
+                from symx import factor
+                V.assume(W[0] < W[1], "0 < W0 < W1 < W2 (the two eigenvalues closest to sigma = 0, ascending)")
+                V.assume(W[1] < W[2])
+                factor.register("eig", (wrap(np.asarray(W, dtype=object)), wrap(np.asarray(Q, dtype=object))))
+                A = wrap(np.asarray(A, dtype=object))
+            sA.state = _mk_sparse(V, A)
+        N = Net(net, [sA], [m.sig_out[0], m.sig_out[1]], [sA, m.sig_out[0], m.sig_out[1]], setter)
+        N.mode_seeds = True
+        return N
 
     if template.startswith("linsolve"):
         n = 3 if template.endswith("dense3") else 2
@@ -221,6 +271,16 @@ def make(V, template, ncyc=3):
 
 
 def _seed(V, N, k, which="all"):
+    if getattr(N, "mode_seeds", False) and which != "all":
+        # eigen-template: `which` selects the MODE whose eigenvector column is seeded (other columns exactly zero)
+        Qs = N.outputs[1]
+        ent = np.asarray(dense_entries(Qs.state), dtype=object if V.symbolic else float)
+        w = np.zeros(ent.shape, dtype=object if V.symbolic else float)
+        col = which[0] if which[0] < ent.shape[1] else ent.shape[1] - 1
+        for i in range(ent.shape[0]):
+            w[i, col] = V.real("w%d_q%d_%d" % (k, col, i), nonzero=True, default=0.5 + 0.25 * i)
+        Qs.sensitivity = wrap(w) if V.symbolic else w
+        return
     for j, s in enumerate(N.outputs):
         if which == "all" or j in which:
             ent = dense_entries(s.state)
